@@ -4,40 +4,73 @@ CONSTANT Depth
 MCChainOf == [c \in {"x1", "x2", "x3", "p1", "p2"} |->
                  CASE c = "x1" -> "cA" [] c = "x2" -> "cA" [] c = "x3" -> "c0" [] c = "p1" -> "cB" [] OTHER -> "cA"]
 \* the exhaustive configs bound the number of outstanding detached cache writes
-PendingBound == Len(pending) <= 2
-StateView == <<queued, tree, known, store, bad, cache, pending, faults>>
+PendingBound == \A l \in Logs : Len(pending[l]) <= 2
+PendingBound1 == \A l \in Logs : Len(pending[l]) <= 1
+\* the reply to a page does not depend on the completion order and the garble classes fall into two kinds (no lookup /
+\* a lookup that finds nothing).  The large exhaustive configs (one log, every cache kind x dialect) explore one order
+\* and, for the in-memory layer, one class without lookup (the garble dimension does not touch the storage layer);
+\* ChainStorePages.cfg explores every order and one class of each kind on pages of up to three leaves,
+\* ChainStorePagesBig.cfg and the two-log configs explore everything (Next).
+NextLean == NextWith({"asc"}, IF SQL THEN {} ELSE {"garbageExtra"})
+NextPages == NextWith(Orders, {"garbageExtra", "unknownHash"})
+StateView == <<queued, tree, known, store, bad, lost, cache, pending, faults>>
 End == [op |-> "End"]
 Finish == Len(hist) = Depth /\ hist' = Append(hist, End)
-          /\ UNCHANGED <<queued, tree, known, store, bad, cache, pending, faults, last>>
-ExportFinished == (Len(hist) = Depth + 1) => PrintT(<<"BEH", ToJson([cap |-> IF NoCache THEN -1 ELSE Cap, dialect |-> Dialect, steps |-> SubSeq(hist, 1, Depth),
-                                                                   cold |-> [i \in 1..Len(tree) |-> ServableCold(i)]])>>)
+          /\ UNCHANGED <<queued, tree, known, store, bad, lost, cache, pending, faults, last>>
+ExportFinished == (Len(hist) = Depth + 1) => PrintT(<<"BEH", ToJson([cap |-> IF NoCache THEN -1 ELSE Cap, dialect |-> Dialect, logs |-> Logs, steps |-> SubSeq(hist, 1, Depth),
+                                                                   cold |-> [l \in Logs |-> [i \in 1..Len(tree[l]) |-> ServableCold(l, i)]]])>>)
+
+\* the log of a step: the first log most of the time (its history gets long enough), another one otherwise
+OtherLogs == IF Cardinality(Logs) > 1 THEN Logs \ {"X"} ELSE Logs
+\* (the parameter keeps TLC from evaluating the draw once and for all as a constant definition)
+DrawLog(n) == IF "X" \in Logs /\ RandomElement(1..10) <= 6 THEN "X" ELSE RandomElement(OtherLogs)
+\* certificates of the same issuance chain (the same leaf again, or another leaf of the same issuer)
+Siblings(c) == {x \in Certs : ChainOf[x] = ChainOf[c]}
+\* chains some cache of the process holds or is about to hold
+Warm == {h \in Chains : \E m \in Logs : InCache(m, h) \/ \E i \in 1..Len(pending[m]) : pending[m][i] = h}
+DrawGarble(a, b) == IF RandomElement(1..4) = 1 THEN [pos |-> RandomElement(a..b), class |-> RandomElement(GarbleClasses)] ELSE NoGarble
+
 SimNext ==
   \/ Finish
   \/ /\ Len(hist) < Depth
      \* the dialects draw from the same seeded generator: extra draws per step give each its own walks
      /\ (Dialect = "mysql" => RandomElement({1, 2}) > 0)
      /\ (Dialect = "postgresql" => RandomElement({1, 2}) + RandomElement({3, 4}) > 0)
-     /\ \E kind \in {RandomElement(1..20)} :
-        CASE kind \in 1..5 -> \E c \in {RandomElement(Certs)} : Submit(c, "none")
-          [] kind = 6 -> \E c \in {RandomElement(Certs)}, f \in {RandomElement(AddFaults)} : Submit(c, f) \/ Submit(c, "none")
-          [] kind \in 7..8 -> IF Len(queued) > 0 /\ Len(tree) < MaxTree
-                              THEN \E k \in {RandomElement(1..(IF Len(queued) < MaxTree - Len(tree) THEN Len(queued) ELSE MaxTree - Len(tree)))} : Sequence(k)
-                              ELSE \E c \in {RandomElement(Certs)} : Submit(c, "none")
-          [] kind = 9 -> IF \E c \in Certs : c \notin known /\ Len(tree) < MaxTree
-                         THEN \E c \in {RandomElement({x \in Certs : x \notin known})} : Legacy(c)
-                         ELSE \E c \in {RandomElement(Certs)} : Submit(c, "none")
-          [] kind \in 10..15 -> IF Len(tree) > 0
-                                THEN \E i \in {RandomElement(1..Len(tree))}, v \in {RandomElement({"entries", "proof"})} :
-                                        IF Len(tree) > 1 /\ RandomElement(1..3) = 1
-                                        THEN \E a \in {RandomElement(1..Len(tree) - 1)} : \E b \in {RandomElement(a + 1..Len(tree))} :
-                                                IF RandomElement(1..3) = 1 THEN \E f \in {RandomElement(FindFaults)} : (ReadRange(a, b, f) \/ ReadRange(a, b, "none")) ELSE ReadRange(a, b, "none")
-                                        ELSE IF RandomElement(1..6) = 1 THEN \E f \in {RandomElement(FindFaults)} : (Read(i, v, f) \/ Read(i, v, "none")) ELSE Read(i, v, "none")
-                                ELSE \E c \in {RandomElement(Certs)} : Submit(c, "none")
-          [] kind \in 16..18 -> IF Len(pending) > 0 THEN CacheSetFires ELSE \E c \in {RandomElement(Certs)} : Submit(c, "none")
-          [] kind = 19 -> IF faults < MaxFaults /\ RandomElement(1..2) = 1 THEN Restart
-                          ELSE IF store # {} /\ faults < MaxFaults THEN \E h \in {RandomElement(store)} : DropRow(h)
-                          ELSE \E c \in {RandomElement(Certs)} : Submit(c, "none")
-          [] OTHER -> IF \E h \in store : bad[h] = "ok" /\ faults < MaxFaults
-                      THEN \E h \in {RandomElement({x \in store : bad[x] = "ok"})}, k \in {RandomElement(CorruptClasses)} : Corrupt(h, k)
-                      ELSE \E c \in {RandomElement(Certs)} : Submit(c, "none")
+     /\ \E kind \in {RandomElement(1..22)}, l \in {DrawLog(Len(hist))} :
+        \* the retry: a submission that failed at the storage is sent again (same leaf or a sibling, same log) more often than not,
+        \* at once or after the detached writes that are on their way have landed
+        IF last.op = "Submit" /\ last.reply.status = 500 /\ RandomElement(1..4) <= 3
+        THEN \E c \in {RandomElement(Siblings(last.args.cert))} : Submit(last.args.log, c, "none")
+        ELSE IF last.op = "CacheSetFires" /\ Len(hist) > 1 /\ hist[Len(hist) - 1].op = "Submit" /\ hist[Len(hist) - 1].reply.status = 500 /\ RandomElement(1..2) = 1
+        THEN \E c \in {RandomElement(Siblings(hist[Len(hist) - 1].args.cert))} : Submit(hist[Len(hist) - 1].args.log, c, "none")
+        ELSE
+        CASE kind \in 1..5 -> \E c \in {RandomElement(Certs)} : Submit(l, c, "none")
+          [] kind \in 6..7 -> \E c \in {RandomElement(Certs)}, f \in {RandomElement(AddFaults)} : Submit(l, c, f) \/ Submit(l, c, "none")
+          [] kind \in 8..9 -> IF Len(queued[l]) > 0 /\ Len(tree[l]) < MaxTree
+                              THEN \E k \in {RandomElement(1..(IF Len(queued[l]) < MaxTree - Len(tree[l]) THEN Len(queued[l]) ELSE MaxTree - Len(tree[l])))} : Sequence(l, k)
+                              ELSE \E c \in {RandomElement(Certs)} : Submit(l, c, "none")
+          [] kind = 10 -> IF \E c \in Certs : c \notin known[l] /\ Len(tree[l]) < MaxTree
+                          THEN \E c \in {RandomElement({x \in Certs : x \notin known[l]})} : Legacy(l, c)
+                          ELSE \E c \in {RandomElement(Certs)} : Submit(l, c, "none")
+          [] kind \in 11..16 -> IF Len(tree[l]) > 0
+                                THEN \E i \in {RandomElement(1..Len(tree[l]))}, v \in {RandomElement({"entries", "proof"})}, o \in {RandomElement(Orders)} :
+                                        IF Len(tree[l]) > 1 /\ RandomElement(1..5) <= 2
+                                        THEN \E a \in {RandomElement(1..Len(tree[l]) - 1)} : \E b \in {RandomElement(a + 1..Len(tree[l]))} : \E g \in {DrawGarble(a, b)} :
+                                                IF RandomElement(1..3) = 1 THEN \E f \in {RandomElement(FindFaults)} : (ReadRange(l, a, b, f, o, g) \/ ReadRange(l, a, b, "none", o, g)) ELSE ReadRange(l, a, b, "none", o, g)
+                                        ELSE IF RandomElement(1..6) = 1 THEN \E f \in {RandomElement(FindFaults)} : (Read(l, i, v, f) \/ Read(l, i, v, "none")) ELSE Read(l, i, v, "none")
+                                ELSE \E c \in {RandomElement(Certs)} : Submit(l, c, "none")
+          [] kind \in 17..19 -> IF \E m \in Logs : Len(pending[m]) > 0
+                                THEN \E m \in {RandomElement({x \in Logs : Len(pending[x]) > 0})} : CacheSetFires(m)
+                                ELSE \E c \in {RandomElement(Certs)} : Submit(l, c, "none")
+          [] kind = 20 -> IF faults < MaxFaults /\ RandomElement(1..2) = 1 THEN Restart
+                          ELSE IF store[l] # {} /\ faults < MaxFaults THEN \E h \in {RandomElement(store[l])} : DropRow(l, h)
+                          ELSE \E c \in {RandomElement(Certs)} : Submit(l, c, "none")
+          \* a chain that is warm in some cache of the process is submitted to one of its logs (for several logs: the
+          \* log another log's cache must not speak for)
+          [] kind = 21 -> IF Warm # {}
+                          THEN \E h \in {RandomElement(Warm)} : \E c \in {RandomElement({x \in Certs : ChainOf[x] = h})}, m \in {RandomElement(OtherLogs)} : Submit(m, c, "none")
+                          ELSE \E c \in {RandomElement(Certs)} : Submit(l, c, "none")
+          [] OTHER -> IF \E h \in store[l] : bad[l][h] = "ok" /\ faults < MaxFaults
+                      THEN \E h \in {RandomElement({x \in store[l] : bad[l][x] = "ok"})}, k \in {RandomElement(CorruptClasses)} : Corrupt(l, h, k)
+                      ELSE \E c \in {RandomElement(Certs)} : Submit(l, c, "none")
 =============================================================================
